@@ -678,7 +678,7 @@ C05Bad == { gb \in GBs : ~(Unknown \in sync.val[gb]
 \* read back as the builder's ground truth: otherwise builder, decoder and
 \* specification disagree - a tool error, never a violation
 InitialOK ==
-  (l = ri + 1 /\ ~crashed /\ R0.src = "build") =>
+  (l = ri + 1 /\ ~crashed /\ R0.src = "build" /\ R0.lenient = 0) =>
      /\ F!WellFormed(vis, G) /\ F!Exact(vis, G)
      /\ \A gb \in GBs : GuestVis(gb) = R0.init[gb + 1]
 
@@ -686,7 +686,17 @@ InitialOK ==
 \* path (viol) and reported with the ACCEPT line of the run, because in a run
 \* with concurrent calls a path is only one guess at the linearization order:
 \* what counts is an accepting path
-StepViols ==
+\* C14: malformed images - nothing may panic or hang, and images using
+\* unsupported features must be refused (spec/HeaderAccept.tla decided which)
+Lenient == R0.lenient = 1
+Inv_C14open == (Fresh /\ Last.e = "OpenRes") =>
+                 (Last.res # "panic" /\ (R0.refuse = 1 => Last.res = "err"))
+Inv_C14run == (Fresh /\ Last.e \in {"Panic", "Stuck"}) => FALSE
+LenientViols ==
+  (IF Inv_C14open THEN <<>> ELSE << <<"C14", l - 1, <<"open", Last.res, Last.msg, R0.mal, R0.refuse>>>> >>)
+  \o (IF Inv_C14run THEN <<>> ELSE << <<"C14", l - 1, <<Last.e, Last.msg, R0.mal>>>> >>)
+
+StrictViols ==
   (IF Inv_C01 THEN <<>> ELSE << <<"C01", l - 1, C01Detail>> >>)
   \o (IF Inv_C02 THEN <<>> ELSE << <<"C02", l - 1, <<"blocks", BadBlocks>>>> >>)
   \o (IF Inv_C03 THEN <<>> ELSE << <<"C03", l - 1, C03Detail>> >>)
@@ -708,6 +718,8 @@ StepViols ==
   \o (IF Inv_C09info THEN <<>> ELSE << <<"C09", l - 1, <<"geometry", InfoBad>>>> >>)
   \o (IF Inv_C09fmt THEN <<>> ELSE << <<"C09", l, <<"formatted image invalid", R0.fmtfail, IF R0.fmtfail = "" THEN C03Detail ELSE <<>>>>>> >>)
   \o (IF Inv_C20 THEN <<>> ELSE << <<"C20", l - 1, <<"check", Last.res, F!Leaked(vis, G), F!Undercounted(vis, G)>>>> >>)
+
+StepViols == IF Lenient THEN LenientViols ELSE StrictViols
 
 \* Audit (a CONSTRAINT, evaluated once per distinct state): progress
 \* registers, the tool self-check, and the crash-image properties, which are
